@@ -274,6 +274,7 @@ class QuickSampler:
             self.post_select,
             rules,
             self.photon_counting,
+            settings.sampler_probability_threshold,
         ]
 
     def _calculate_probabiltiies(self, outputs: list) -> dict:
